@@ -336,6 +336,20 @@ func vHistoryQueries(e *vEnv, docs []vDoc, norm func([]byte) string) []vBase {
 			qs = append(qs, vBase{"exact-twin:" + docs[di].key, string(docs[di].raw)})
 		}
 	}
+	// texts in which NUL bytes (and other control characters) separate words
+	for k := 0; k < e.pick(12, 80); k++ {
+		d := docs[r.Intn(len(docs))]
+		if len(d.raw) > 5000 {
+			continue
+		}
+		b := append([]byte{}, d.raw...)
+		for i := range b {
+			if b[i] == ' ' && r.Intn(6) == 0 {
+				b[i] = []byte{0, 0, 0x0b, 0x1f, 0x7f}[r.Intn(5)]
+			}
+		}
+		qs = append(qs, vBase{"control-chars:" + d.key, string(b)})
+	}
 	perm := r.Perm(len(docs))
 	np := 0
 	for _, di := range perm {
@@ -438,7 +452,12 @@ func TestVerifC04(t *testing.T) {
 			// Normalize of the SAME bytes between the Match calls (the natural use: match,
 			// then normalize for display), and its result must be stable: what Normalize
 			// returned must not change when later calls are made
-			n1 := c.Normalize(append([]byte{}, in...))
+			narg := append([]byte{}, in...)
+			n1 := c.Normalize(narg)
+			if !bytes.Equal(narg, in) {
+				cs.violation("input-modified", "Normalize modified the caller's byte slice")
+				return
+			}
 			n1sha := vSha(n1)
 			n1copy := append([]byte{}, n1...)
 			// a seeded schedule of other calls on the same classifier
